@@ -204,6 +204,64 @@ void h_read_length_value_func(void)
 	}
 	VG_CANARY("read_length_value_func");
 }
+#if VG_LHARK
+/* C01, LHARK extensions (-lk7-), from the format's tables (not from the code's formulas).
+   Copy lengths: symbols 256..263 are the lengths 3..10; then six groups of four symbols with 1..6 extra bits whose bases
+   continue the sequence (11,13,15,17 / 19,23,27,31 / ... / 259,323,387,451); symbol 288 is the maximum length 514.
+   The extra bits follow the symbol in the stream, MSB first, and exactly those bits are consumed. */
+static const uint16_t vg_lk_len_base[33] = { 3,4,5,6,7,8,9,10, 11,13,15,17, 19,23,27,31, 35,43,51,59, 67,83,99,115,
+                                             131,163,195,227, 259,323,387,451, 514 };
+static const uint8_t  vg_lk_len_extra[33] = { 0,0,0,0,0,0,0,0, 1,1,1,1, 2,2,2,2, 3,3,3,3, 4,4,4,4, 5,5,5,5, 6,6,6,6, 0 };
+void h_lhark_decode_copy_count_func(void)
+{
+	size_t cur0;
+	int ret, code = nondet_int();
+	vg_havoc();
+	__CPROVER_havoc_object(vg_in);
+	vg_in_pos = nondet_size_t(); vg_eof = 0;
+	__CPROVER_assume(code >= 256 && code <= 288);
+	__CPROVER_assume(BITS_PRE(&vg_dec.bit_stream_reader, 0u) && vg_in_pos <= VG_POS_MIN + 4);
+	cur0 = VG_CUR(&vg_dec.bit_stream_reader);
+	ret = lhark_decode_copy_count(&vg_dec, code);
+	if (ret >= 0) {
+		__CPROVER_assert(ret == (int) vg_lk_len_base[code - 256] + (int) VG_SB(cur0, (unsigned) vg_lk_len_extra[code - 256]),
+		                 "C01 LHARK copy length: table base plus the next extra bits");
+		__CPROVER_assert(VG_CUR(&vg_dec.bit_stream_reader) == cur0 + vg_lk_len_extra[code - 256],
+		                 "C01 LHARK copy length: exactly the extra bits of the symbol are consumed");
+	} else {
+		__CPROVER_assert(vg_eof, "C01 LHARK copy length: failure only at end of input");
+	}
+	VG_CANARY("lhark_decode_copy_count_func");
+}
+/* Distances: offset symbols 0..3 are the values 0..3; from 4 on, pairs of symbols with 1,2,3,... extra bits and bases
+   4,6 / 8,12 / 16,24 / ... (value = distance - 1).  Stated for the symbols whose values lie inside the 64 KiB window
+   (0..31); larger symbols denote distances no valid stream uses. */
+void h_lhark_read_offset_code_func(void)
+{
+	size_t cur0;
+	int ret, code = nondet_int();
+	unsigned nb;
+	uint32_t base;
+	vg_havoc();
+	__CPROVER_havoc_object(vg_in);
+	vg_in_pos = nondet_size_t(); vg_eof = 0;
+	__CPROVER_assume(code >= 0 && code <= 31);
+	__CPROVER_assume(BITS_PRE(&vg_dec.bit_stream_reader, 0u) && vg_in_pos <= VG_POS_MIN + 4);
+	cur0 = VG_CUR(&vg_dec.bit_stream_reader);
+	/* table in closed form: pair p = code/2 (p >= 2) has p-1 extra bits; bases 2^p and 3*2^(p-1) */
+	nb = code < 4 ? 0u : (unsigned) code / 2u - 1u;
+	base = code < 4 ? (uint32_t) code : ((code & 1) ? (3u << nb) : (2u << nb));
+	ret = lhark_read_offset_code(&vg_dec, code);
+	if (ret >= 0) {
+		__CPROVER_assert((uint32_t) ret == base + VG_SB(cur0, nb) && (uint32_t) ret < 65536u,
+		                 "C01 LHARK distance: pair base plus the next extra bits, inside the 64 KiB window");
+		__CPROVER_assert(VG_CUR(&vg_dec.bit_stream_reader) == cur0 + nb, "C01 LHARK distance: exactly the extra bits are consumed");
+	} else {
+		__CPROVER_assert(vg_eof, "C01 LHARK distance: failure only at end of input");
+	}
+	VG_CANARY("lhark_read_offset_code_func");
+}
+#endif
 /* read_skip_count: zero-run lengths of the code table: class 0 -> 1; class 1 -> 3 + next 4 bits; class 2 -> 20 + next 9 bits */
 void h_read_skip_count_func(void)
 {
